@@ -168,7 +168,7 @@ pub fn gen_pieces(t: &mut Tape<'_>, n: usize, max_pieces: usize, par: usize) -> 
     let mut v = Vec::new();
     for i in 0..m {
         let share = t.byte() as usize;
-        let kind = CallKind::ALL[t.idx(CallKind::ALL.len())];
+        let kind = t.pick(&CALL_KIND_TABLE);
         let mut sched = [0u8; 6];
         for b in sched.iter_mut() {
             *b = t.byte();
@@ -272,4 +272,380 @@ pub fn ctor_pick(t: &mut Tape<'_>) -> Ctor {
 /// Which block modes exist for this suite (enc-only suites lack the CBC/PCBC/IGE decryptors).
 pub fn modes_for(s: &Suite) -> Vec<(Mode, Direction)> {
     s.block_modes.iter().map(|f| (f.mode(), f.dir())).collect()
+}
+
+/// Call kinds with the backend-level schedule over-represented (it is the only kind that
+/// reaches the mode backend without going through `cipher`'s own batching).
+pub const CALL_KIND_TABLE: [CallKind; 11] = [
+    CallKind::Block,
+    CallKind::Blocks,
+    CallKind::Backend,
+    CallKind::BlocksB2b,
+    CallKind::BlockB2b,
+    CallKind::Backend,
+    CallKind::BlocksInout,
+    CallKind::BlockInout,
+    CallKind::Backend,
+    CallKind::BlocksInoutInplace,
+    CallKind::Backend,
+];
+
+/// Byte length classes for messages: 0, < one block, = one block, k blocks, k blocks +- 1, any.
+pub fn gen_msg_len(t: &mut Tape<'_>, bs: usize, max_blocks: usize) -> usize {
+    let class = t.byte();
+    let k = 1 + t.idx(max_blocks.max(1));
+    let any = t.idx(bs.max(1));
+    let max = max_blocks * bs;
+    let v = match class {
+        0..=9 => 0,
+        10..=29 => any,             // < one block (possibly 0)
+        30..=49 => bs,
+        50..=89 => k * bs,
+        90..=119 => k * bs + 1,
+        120..=149 => (k * bs).saturating_sub(1),
+        _ => (k - 1) * bs + any,
+    };
+    v.min(max)
+}
+
+/// A composition of `len` bytes into at most `max_pieces` pieces (zeros allowed), biased
+/// towards cuts at k*bs-1, k*bs, k*bs+1. Fixed-size records of 2 bytes.
+pub fn gen_cuts(t: &mut Tape<'_>, len: usize, bs: usize, max_pieces: usize) -> Vec<usize> {
+    let m = 1 + t.idx(max_pieces);
+    let mut left = len;
+    let mut pos = 0usize;
+    let mut v = Vec::new();
+    for i in 0..m {
+        let class = t.byte();
+        let amt = t.byte() as usize;
+        let piece = if i + 1 == m {
+            left
+        } else {
+            let to_boundary = (bs - pos % bs) % bs; // bytes up to the next block boundary (0 if on it)
+            match class {
+                0 => left,
+                1..=25 => 0,
+                26..=60 => 1,
+                61..=100 => to_boundary,                       // end exactly on a boundary
+                101..=125 => to_boundary + 1,                   // one past
+                126..=150 => (to_boundary + bs).saturating_sub(1), // one short of the next one
+                151..=175 => to_boundary + bs * (1 + amt % 3),  // whole blocks, ending on a boundary
+                176..=200 => (amt * bs) / 256,                  // shorter than a block
+                _ => (amt * (left + 1)) / 256,
+            }
+        }
+        .min(left);
+        left -= piece;
+        pos += piece;
+        v.push(piece);
+    }
+    v
+}
+
+pub fn describe_cuts(c: &[usize]) -> String {
+    c.iter().map(|x| x.to_string()).collect::<Vec<_>>().join("+")
+}
+
+/// Apply-kind per piece (1 byte each, fixed count).
+pub fn gen_apply_kinds(t: &mut Tape<'_>, n: usize) -> Vec<ApplyKind> {
+    (0..n).map(|_| ApplyKind::ALL[t.idx(3)]).collect()
+}
+
+/// Feed `data` through a stream cipher object in pieces. All calls must succeed.
+pub fn run_stream(
+    obj: &mut dyn StreamObj,
+    data: &[u8],
+    cuts: &[usize],
+    kinds: &[ApplyKind],
+    pre: (u8, u32),
+) -> Result<Vec<u8>, Violation> {
+    let mut out = Vec::with_capacity(data.len());
+    let mut off = 0;
+    for (i, c) in cuts.iter().enumerate() {
+        let inp = &data[off..off + c];
+        let mut o = prefill(pre.0, pre.1.wrapping_add(off as u32), inp);
+        let k = kinds.get(i).copied().unwrap_or(ApplyKind::InPlace);
+        let r = obj.try_apply(k, inp, &mut o);
+        ensure!(r.is_ok(), "apply-rejected", "{:?} of {} bytes at offset {} failed", k, c, off);
+        out.extend_from_slice(&o);
+        off += c;
+    }
+    assert_eq!(off, data.len(), "harness: cuts do not cover the data");
+    Ok(out)
+}
+
+pub fn run_buf(obj: &mut dyn BufCfbObj, data: &[u8], cuts: &[usize]) -> Vec<u8> {
+    let mut out = data.to_vec();
+    let mut off = 0;
+    for c in cuts {
+        obj.process(&mut out[off..off + c]);
+        off += c;
+    }
+    assert_eq!(off, data.len(), "harness: cuts do not cover the data");
+    out
+}
+
+pub fn with_sig(prefix: &str, ty: &str, v: Violation) -> Violation {
+    Violation {
+        sig: format!("{prefix}/{}/{ty}", v.sig),
+        msg: v.msg,
+    }
+}
+
+/// Run the whole message through a block mode in one `Blocks` call.
+pub fn run_simple(obj: &mut dyn BlockModeObj, data: &[u8]) -> Vec<u8> {
+    let mut out = vec![0u8; data.len()];
+    let mut s = Sched::new([0; 6]);
+    let _ = obj.process(CallKind::Blocks, data, &mut out, &mut s);
+    out
+}
+
+pub const STREAM_KINDS_ALL: [StreamKind; 8] = [
+    StreamKind::Ctr(32, true),
+    StreamKind::Ctr(32, false),
+    StreamKind::Ctr(64, true),
+    StreamKind::Ctr(64, false),
+    StreamKind::Ctr(128, true),
+    StreamKind::Ctr(128, false),
+    StreamKind::Belt,
+    StreamKind::Ofb,
+];
+
+// ---------------------------------------------------------------------------------------
+// positions in a keystream: (block index, byte offset inside the block)
+
+#[derive(Clone, Copy, Debug, PartialEq, Eq)]
+pub struct Pos {
+    pub blk: u128,
+    pub off: usize,
+}
+
+impl Pos {
+    pub fn zero() -> Self {
+        Pos { blk: 0, off: 0 }
+    }
+    /// byte position if it fits u128
+    pub fn bytes(self, bs: usize) -> Option<u128> {
+        self.blk.checked_mul(bs as u128)?.checked_add(self.off as u128)
+    }
+    pub fn from_bytes(p: u128, bs: usize) -> Self {
+        Pos {
+            blk: p / bs as u128,
+            off: (p % bs as u128) as usize,
+        }
+    }
+    /// position after `n` more bytes; `None` on u128 block-index overflow
+    pub fn advance(self, n: usize, bs: usize) -> Option<Pos> {
+        let t = self.off + n;
+        Some(Pos {
+            blk: self.blk.checked_add((t / bs) as u128)?,
+            off: t % bs,
+        })
+    }
+    /// number of keystream blocks the core has generated when the byte position is `self`
+    pub fn blocks_generated(self) -> u128 {
+        self.blk + (self.off != 0) as u128
+    }
+}
+
+/// Does a request of `n` bytes starting at `p` stay within `limit` keystream blocks?
+pub fn fits(p: Pos, n: usize, bs: usize, limit: u128) -> bool {
+    match p.advance(n, bs) {
+        None => false,
+        Some(e) => e.blk < limit || (e.blk == limit && e.off == 0),
+    }
+}
+
+/// The smallest seek integer type that can hold `p`, chosen among the generated candidates.
+pub fn seek_types_for(p: u128) -> Vec<NumTy> {
+    NumTy::ALL.iter().copied().filter(|t| p <= t.max()).collect()
+}
+
+/// Block-index classes for a `w`-bit counter: 0, small, around 2^8k, random, near the end.
+/// Returns an index in `[0, 2^w - 1 - reserve]`.
+pub fn gen_block_index(t: &mut Tape<'_>, w: u32, reserve: u128) -> u128 {
+    let maxidx: u128 = if w == 128 { u128::MAX } else { (1u128 << w) - 1 };
+    let hi = maxidx - reserve.min(maxidx);
+    let class = t.byte();
+    let a = t.u32() as u128;
+    let j = t.idx(5) as u128;
+    let v = match class {
+        0..=39 => 0,
+        40..=89 => a % 300,
+        90..=139 => {
+            // around a byte-carry boundary of the counter: 2^(8k) - 2 .. 2^(8k) + 2
+            let k = 1 + (a % ((w / 8) as u128 - 0)).min((w / 8) as u128 - 1);
+            let base = if 8 * k >= 128 { u128::MAX } else { 1u128 << (8 * k) };
+            base.wrapping_sub(2).wrapping_add(j)
+        }
+        140..=189 => {
+            // pseudo-random over the whole range
+            let mut st = (a as u64) << 8 | class as u64;
+            let x = ((vp_base::tape::splitmix(&mut st) as u128) << 64) | vp_base::tape::splitmix(&mut st) as u128;
+            if w == 128 { x } else { x & maxidx }
+        }
+        _ => hi - j.min(hi),
+    };
+    v.min(hi)
+}
+
+/// An IV for a CTR flavour with the counter field drawn from boundary classes.
+pub fn gen_ctr_iv(t: &mut Tape<'_>, bs: usize, w: u32, be: bool) -> Vec<u8> {
+    let mut iv = vp_base::tape::gen_bytes(t, bs);
+    let class = t.byte();
+    let a = t.u32() as u128;
+    let j = t.idx(4) as u128;
+    let wb = (w / 8) as usize;
+    let mask: u128 = if w == 128 { u128::MAX } else { (1u128 << w) - 1 };
+    let field: Option<u128> = match class {
+        0..=63 => None, // whatever the pattern gave
+        64..=95 => Some(0),
+        96..=159 => Some(mask - j),                       // wraps within a few blocks
+        160..=207 => {
+            let k = 1 + (a % (w as u128 / 8));
+            let base = if 8 * k >= 128 { 0u128 } else { 1u128 << (8 * k) };
+            Some(base.wrapping_sub(1).wrapping_sub(j) & mask) // just below a byte carry
+        }
+        _ => {
+            let mut st = (a as u64) << 8 | class as u64;
+            let x = ((vp_base::tape::splitmix(&mut st) as u128) << 64) | vp_base::tape::splitmix(&mut st) as u128;
+            Some(x & mask)
+        }
+    };
+    if let Some(v) = field {
+        for k in 0..wb {
+            let byte = (v >> (8 * k)) as u8;
+            if be {
+                iv[bs - 1 - k] = byte;
+            } else {
+                iv[k] = byte;
+            }
+        }
+    }
+    iv
+}
+
+#[derive(Clone, Copy, Debug, PartialEq, Eq)]
+pub enum Reach {
+    Seek(NumTy),
+    /// `core.set_block_pos(blk)`, `from_core`, then consume `off` bytes
+    SetBlockPos,
+}
+
+/// Build a byte-level stream cipher positioned at `p`.  Returns `None` when the chosen way
+/// of getting there is refused by the API (never the case for in-range positions; the
+/// caller decides what that means).
+pub fn position_stream(
+    f: &dyn StreamFactory,
+    model: &crate::model::KsModel<'_>,
+    key: &[u8],
+    iv: &[u8],
+    p: Pos,
+    bs: usize,
+    reach: Reach,
+    sigp: &str,
+) -> Result<Box<dyn StreamObj>, Violation> {
+    let ty = f.type_name();
+    match reach {
+        Reach::Seek(nt) => {
+            let mut s = f.make(Ctor::New, key, iv).expect("harness: ctor");
+            let bytes = p.bytes(bs).expect("harness: seek position fits u128");
+            let res = s.try_seek(nt, bytes).ok_or_else(|| Violation { sig: format!("{sigp}/not-seekable/{ty}"), msg: "type no longer implements StreamCipherSeek".into() })?;
+            ensure!(res.is_ok(), format!("{sigp}/seek-rejected/{ty}"), "try_seek::<{nt:?}>({bytes}) (block {}, offset {}) failed although the position is inside the keystream", p.blk, p.off);
+            Ok(s)
+        }
+        Reach::SetBlockPos => {
+            let mut c = f.make_core(Ctor::New, key, iv).expect("harness: ctor");
+            c.set_block_pos(p.blk).ok_or_else(|| Violation { sig: format!("{sigp}/not-seekable/{ty}"), msg: "core no longer implements StreamCipherSeekCore".into() })?;
+            let mut s = c.into_wrapper();
+            if p.off > 0 {
+                let dummy = vec![0x5Au8; p.off];
+                let mut o = vec![0u8; p.off];
+                let res = s.try_apply(ApplyKind::Inout, &dummy, &mut o);
+                ensure!(res.is_ok(), format!("{sigp}/apply-rejected/{ty}"), "applying {} bytes at block {} failed", p.off, p.blk);
+                let want = model.apply_at(p.blk, 0, &dummy);
+                ensure_eq_bytes!(o, want, format!("{sigp}/output/{ty}"), "first {} bytes of block {}", p.off, p.blk);
+            }
+            Ok(s)
+        }
+    }
+}
+
+pub fn gen_reach(t: &mut Tape<'_>, p: Pos, bs: usize) -> Reach {
+    let b = t.byte();
+    match p.bytes(bs) {
+        Some(bytes) if b < 176 => {
+            let tys = seek_types_for(bytes);
+            Reach::Seek(tys[(b as usize * tys.len()) / 176])
+        }
+        _ => Reach::SetBlockPos,
+    }
+}
+
+// ---------------------------------------------------------------------------------------
+// operation histories on byte-level stream ciphers
+
+#[derive(Clone, Debug)]
+pub enum SOp {
+    Seek(NumTy, u128),
+    Apply(ApplyKind, Vec<u8>, (u8, u32)),
+    Pos(NumTy),
+    Remaining,
+    BlockPos,
+}
+
+#[derive(Clone, Debug, PartialEq, Eq)]
+pub enum SRes {
+    Seek(Option<Result<(), ApiErr>>),
+    Apply(Result<(), ApiErr>, Vec<u8>),
+    Pos(Option<Result<u128, ApiErr>>),
+    Remaining(Option<usize>),
+    BlockPos(Option<u128>),
+}
+
+pub fn exec_sop(obj: &mut dyn StreamObj, op: &SOp) -> SRes {
+    match op {
+        SOp::Seek(ty, p) => SRes::Seek(obj.try_seek(*ty, *p)),
+        SOp::Apply(k, data, pre) => {
+            let mut o = prefill(pre.0, pre.1, data);
+            let r = obj.try_apply(*k, data, &mut o);
+            SRes::Apply(r, o)
+        }
+        SOp::Pos(ty) => SRes::Pos(obj.try_current_pos(*ty)),
+        SOp::Remaining => SRes::Remaining(obj.core_remaining()),
+        SOp::BlockPos => SRes::BlockPos(obj.core_block_pos()),
+    }
+}
+
+pub fn describe_sop(op: &SOp) -> String {
+    match op {
+        SOp::Seek(ty, p) => format!("seek<{ty:?}>({p})"),
+        SOp::Apply(k, d, pre) => format!("apply<{k:?}>({}B,prefill{})", d.len(), pre.0),
+        SOp::Pos(ty) => format!("pos<{ty:?}>"),
+        SOp::Remaining => "remaining".into(),
+        SOp::BlockPos => "block_pos".into(),
+    }
+}
+
+/// Check a reported position against the model (soundness rule 4 of DESIGN.md).
+pub fn check_reported_pos(res: Option<Result<u128, ApiErr>>, ty: NumTy, q: Pos, bs: usize, sigp: &str, tyname: &str) -> CheckResult {
+    let res = res.ok_or_else(|| Violation { sig: format!("{sigp}/not-seekable/{tyname}"), msg: "type no longer implements StreamCipherSeek".into() })?;
+    let qb = q.bytes(bs);
+    match res {
+        Ok(v) => {
+            ensure!(Some(v) == qb, format!("{sigp}/position-value/{tyname}"), "try_current_pos::<{ty:?}>() = {v}, but {} keystream bytes precede the next byte (block {}, offset {})", qb.map(|x| x.to_string()).unwrap_or_else(|| ">2^128".into()), q.blk, q.off);
+            ensure!(v <= ty.max(), format!("{sigp}/position-value/{tyname}"), "reported position does not fit the type");
+        }
+        Err(_) => {
+            // an error is mandatory when the position does not fit; it is tolerated when the
+            // end of the current keystream block does not fit (cipher's SeekNum multiplies first)
+            let gen_bytes = q.blocks_generated().checked_mul(bs as u128);
+            let tolerated = match gen_bytes {
+                None => true,
+                Some(g) => g > ty.max(),
+            };
+            ensure!(tolerated, format!("{sigp}/position-error/{tyname}"), "try_current_pos::<{ty:?}>() failed although the position (block {}, offset {}) fits comfortably", q.blk, q.off);
+        }
+    }
+    Ok(())
 }
